@@ -23,6 +23,9 @@ pub fn cfg_from_context(c: &Value) -> WorldCfg {
     if cfg.exotic {
         cfg.fees = Some(ic_btc_interface::Fees::testnet());
     }
+    if c["fees_all_zero"].as_bool().unwrap_or(false) {
+        cfg.fees = Some(ic_btc_interface::Fees::default());
+    }
     cfg
 }
 
@@ -683,6 +686,7 @@ impl<O: Oracle> Model for ChainModel<O> {
             "disable_if_not_synced": self.cfg.disable_if_not_synced,
             "syncing": self.cfg.syncing,
             "exotic": self.cfg.exotic,
+            "fees_all_zero": self.cfg.fees == Some(ic_btc_interface::Fees::default()),
             "oracle": self.oracle.params(),
         })
     }
